@@ -154,6 +154,9 @@ func genRec(r *gen.R, op string, validOnly bool) recCase {
 			c.p = uniformT(r, dt, []int{1, 3 * c.H}, 0.5)
 		}
 	}
+	if op == "LSTM" && c.h0 != nil && c.c0 != nil && r.Chance(0.15) {
+		c.c0 = c.h0 // the caller passes ONE tensor object as both initial states
+	}
 	opt := []*ref.T{c.b, nil, c.h0}
 	if op == "LSTM" {
 		opt = append(opt, c.c0, c.p)
@@ -718,6 +721,9 @@ func c06SplitModel(c *Ctx, rc recCase, s int) {
 		ins = make([]*ref.T, 8)
 	}
 	copy(ins, rc.req.Inputs)
+	if rc.op == "LSTM" && ins[6] != nil && ins[6] == ins[5] {
+		ins[6] = ins[6].Clone() // two graph inputs here: the pieces feed h and c back separately
+	}
 	if ins[5] == nil {
 		ins[5] = ref.New(rc.x.DT, 1, rc.B, rc.H)
 		mask &^= 1 << 5
